@@ -62,6 +62,9 @@ UNICODE_LINES = ["Mark: æøå", "   ", "\tMark: tab", "Mark: a # c", "# only co
                  "Info", "Stop: now", "Wait: 0.25s", "Mark: m"]
 
 
+USER_UOD = ["CmdFail", "CmdNum", "CmdA"]   # UOD commands the operator issues from the UI (no arguments: CmdNum is rejected)
+
+
 def uod_extra(b):
     """UOD commands whose exec function fails: a failing instruction that is not an interpretation error."""
     def exec_fail(cmd, **kvargs):
@@ -86,7 +89,7 @@ def gen_case(ctx: Check) -> dict:
     for t in range(rng.randrange(15, 60)):
         x = rng.random()
         if x < 0.06:
-            sched.append(("user", rng.choice(["Pause", "Unpause", "Hold", "Unhold", "Stop", "Start", "Restart"])))
+            sched.append(("user", rng.choice(["Pause", "Unpause", "Hold", "Unhold", "Stop", "Start", "Restart"] + USER_UOD)))
         elif x < 0.10:
             sched.append(("inject", rng.choice([gen_snippet(rng), rng.choice(UNICODE_LINES)])))
         elif x < 0.13:
@@ -122,6 +125,15 @@ def sweep_cases() -> list[dict]:
         for end in ("stop", "fix", "restart"):
             out.append({"pcode": m, "sched": [("tick",)] * 8, "end": end})
     out.append({"pcode": FAILING_METHODS[0], "sched": [("tick",)] * 8, "end": "stop-then-fix"})
+    # the operator presses Stop and right after it issues a UOD command that fails (before the same tick / one and
+    # two ticks later); a failing operator command while the run executes, then Stop
+    for cmd in ("CmdFail", "CmdNum"):
+        for gap in (0, 1, 2):
+            for t in (2, 5):
+                out.append({"pcode": "Mark: a\nWait: 2s\nMark: b", "end": "stop",
+                            "sched": [("tick",)] * t + [("user", "Stop")] + [("tick",)] * gap + [("user", cmd)] + [("tick",)] * 8})
+        out.append({"pcode": "Mark: a\nWait: 2s\nMark: b", "end": "stop",
+                    "sched": [("tick",)] * 3 + [("user", cmd)] + [("tick",)] * 3 + [("user", "Stop")] + [("tick",)] * 6})
     return out
 
 
@@ -338,6 +350,8 @@ def _oracle(case, ins: Instrument) -> list[Failure]:
         cm = e._command_manager
         pending = cm.cmd_queue.qsize() + len(cm.cmd_executing)
         r = run.user(name)
+        if name in USER_UOD:
+            return r             # (counted as a request that arrived since, see the Stop bound in tick())
         st["stop"] = ({"ticks": 0, "pending": pending, "sched0": ins.scheduled}
                       if (name == "Stop" and r == "ok" and not restarting) else None)
         return r
